@@ -521,6 +521,8 @@ enum cc_stat cc_tsttable_iter_next (CC_TSTTableIter *iter, CC_TSTTableEntry **ou
 
     if (iter->advanced_on_remove) {
         iter->advanced_on_remove = 0;
+        if (iter->next_stat == CC_OK)
+            *out = ((CC_TSTTableNode*) iter->current_node)->data;
         return iter->next_stat;
     }
 
